@@ -288,6 +288,8 @@ func runC02(c *eng.Ctx) {
 		}
 		finish(idx, r, "directed-replaced-alias", map[string]any{"kind": "directed-replaced-alias", "variant": di})
 	}
+	// (a1) constructors one output of which is nil on the first invocation (retry must not replace what the scope serves)
+	core.RunPartialOutputs(c, "C02", next)
 	// (a) sequential random
 	nSeq := c.Pick(600, 20000)
 	for k := 0; k < nSeq; k++ {
